@@ -428,6 +428,20 @@ fn cmd_check(a: &Args) -> i32 {
         total.merge(st);
         harness.extend(errs);
     }
+    // 1b. builder half: the interacting setter pairs, deeper
+    if enabled("bsub") {
+        for (name, sub, depth) in explore_b::sub_alphabets(plan.thorough) {
+            let units = explore_b::bsub_units(sub.len());
+            let t = std::time::Instant::now();
+            let before = total.chains;
+            let (st, errs) = par(units.len(), workers, false, |i, st, errs| {
+                explore_b::run_bexh_unit(1_000_000 + i as u64, &units[i], &sub, depth, st, errs);
+            });
+            total.merge(st);
+            harness.extend(errs);
+            println!("builder chains over the {} setters only (<= {} calls, exhaustive): {} chains, {:.1}s", name, depth, total.chains - before, t.elapsed().as_secs_f64());
+        }
+    }
     // 2. builder half: all orders of the complete configuration
     if enabled("bperm") {
         let units = explore_b::bperm_units();
